@@ -94,9 +94,7 @@ def runMethodOut (env : Env) (m : Method) (self : TM) (payload : Option Nat) (ab
 def step (env : Env) (c : Code) (p : Option DynParts) (hold : Holder) : Op → StepOut
   | .newTyped ctx =>
     -- `M::new(ctx)`; the initial state is the one whose impl carries the constructor
-    let st := c.findSome? fun
-      | .stateImpl _ _ s (some _) _ => some s
-      | _ => none
+    let st := c.ctorState
     match st.bind fun s => c.newTyped s ctx with
     | some m => ⟨.typed m, .unit, [], []⟩
     | none => ⟨hold, .noSuch, [], []⟩
